@@ -84,7 +84,9 @@ def check_typegen_inserted_on_all_paths(P, rule):
                 o, outcome = f.cond_struct(b, lab)
             except Exception:
                 o, outcome = ("?",), "?"
-            if o[0] == "call" and o[1].name in ("get_mut", "as_object_mut", "as_object", "get") and outcome == "None":
+            if o[0] == "call" and outcome == "None" and (o[1].name in ("get_mut", "as_object_mut", "as_object", "get")
+                                                     or (o[1].name in ("and_then", "map", "as_mut", "filter_map")
+                                                         and re.search(r"get_mut\(|as_object_mut\(|as_object\(", f.describe_origin(o, short=True, deep=5)))):
                 continue
             if t not in seen:
                 seen.add(t)
